@@ -22,7 +22,7 @@ PLAN = {
         ],
         "assumptions": [
             "loom explores the interleavings of mutex/condvar/thread operations of the real compression.rs and file.rs (built with --cfg jubako_verif_loom: loom Mutex/Condvar, loom thread instead of the rayon pool, 2-byte chunks); Arc stays std's (no scheduling point, sound); sequentially consistent exploration, preemption-bounded (bound completed reported per configuration)",
-            "engine B runs the real ContentPack reader under loom (cluster cache of capacity 1/2, cluster RwLock, decoder threads, shared FileSource; 2 readers, at most 3 decoder threads because of loom's 5-thread limit); the Container's OnceLock pack slots and VecCache are not under loom: only the free-running stress engine (stressmc, sampling) passes through them",
+            "engine B runs the real ContentPack reader under loom (cluster cache of capacity 1/2, cluster RwLock, decoder threads, shared FileSource; 2 readers, at most 3 decoder threads because of loom's 5-thread limit); engine B2 runs the real Container under loom (hook H6: a scheduling point at every OnceLock operation of the pack slots, the entry/value store caches and the check-info cells; directory pack RwLock as loom's): two threads making the first accesses to a freshly opened 5-file container; contents of a few bytes (loom's 16-bit version counters); the free-running stress engine (stressmc, sampling) is kept for volume only",
             "weak-memory effects beyond what loom models are out of reach",
         ],
     },
@@ -59,9 +59,9 @@ PLAN = {
     },
     "C12": {
         "level": "model_checking",
-        "engines": lambda tier: [_e("release", "locmc", "c12")],
+        "engines": lambda tier: [_e("release", "locmc", "c12", "--shards", "4")],
         "assumptions": [
-            "state = vector of recorded locations (reference model: Vec<String>); string alphabet of 7 admissible strings incl. the 213-byte limit and multi-byte UTF-8",
+            "state = vector of recorded locations (reference model: Vec<String>); string alphabet of 10 admissible strings incl. the 213-byte limit, multi-byte UTF-8 and four spellings of one path",
             "a standalone manifest cannot be opened as a Container once its locations point nowhere, so the content/entry comparison runs on the container-embedded initial states only",
         ],
     },
@@ -99,10 +99,11 @@ PLAN = {
     },
     "C05": {
         "level": "fault_enumeration",
-        "engines": lambda tier: [_e("release", "faultmc", "c05")],
+        "engines": lambda tier: [_e("release", "faultmc", "c05"), _e("release", "faultmc", "c05giant")],
         "assumptions": [
             "the structural dump is what the public reader API returns (pack infos, index headers, every entry's variant and values, content sizes, content hashes)",
             "a node absent from the altered dump is accepted only because counts/lengths are always dumped next to it",
+            "one container with a single checked block of 19.2 MB (above every size threshold of the block reader) gets 20 alterations only; all other containers are swept exhaustively",
         ],
     },
     "C06": {
